@@ -51,6 +51,9 @@ THEOREMS = [
     "Optyx.Props.C01.compile_sound_real",
     "Optyx.Props.BuildTie.compile_step",
     "Optyx.Props.BuildTie.compileVec_step",
+    "Optyx.Props.BuildTie.cstep_eq",
+    "Optyx.Props.BuildTie.elemsIter_eq",
+    "Optyx.Props.BuildTie.buildIterFrame_text",
     "Optyx.Props.BuildTie.step_unique",
     "Optyx.Props.BuildTie.vec_unique",
     "Optyx.Props.BuildTie.source_equations_solvable",
